@@ -113,7 +113,7 @@ PROPS = {
         "rule": ("templates with 0-6 columns in non-alphabetical order (names incl. '', 'é', 'a.b'), hidden anywhere, sub-rows to depth 3; "
                  "input and output template share names and structure as jl builds them; inputs: every permutation of the declared keys "
                  "(<= 4 keys; thorough 5), missing keys, extra keys, objects/arrays with >= 2 members in non-alphabetical order under "
-                 "declared and undeclared keys. The member order of every object of the emitted line is judged by "
+                 "declared and undeclared keys. One case in three also hands the line as JSON text (string or []byte) straight to Exporter.Export under the rendering template. The member order of every object of the emitted line is judged by "
                  "LineSpec.orderViolation (visible columns in declaration order, then undeclared keys in first-appearance order; nested "
                  "objects keep the input's shape; declared sub-rows follow the same rule). distinct = distinct (templates, input)"),
         "trusted_base": [KERNEL, CORR, "lean/Model/Template.lean, Value.lean, Row.lean, RowPrint.lean (hand-written; byte-exact correspondence)",
